@@ -309,8 +309,13 @@ func TestC11Stream(t *testing.T) {
 				}
 				puts++
 				r.await(old)
-				if old.parkedAt("send") < 0 {
-					t.Skip("old stream has no pending send")
+				// the queued callback first parks at its own gate; let it through so that it sits in the Send
+				for i := 0; i < 6 && !old.ended && old.parkedAt("send") < 0 && old.parkedAt("callback") >= 0; i++ {
+					r.step(old, old.parkedAt("callback"), nil)
+				}
+				if old.ended || old.parkedAt("send") < 0 {
+					hist = append(hist, fmt.Sprintf("reconnect-attempt(s%d: no pending send)", old.id))
+					return
 				}
 				from := uint64(0)
 				if rapid.Bool().Draw(t, "fromHead") {
